@@ -391,7 +391,7 @@ def linksView (w : World) : String :=
 
 /-- Register a host: links to all existing hosts (created with the topology's current time). -/
 def register (w : World) (ipnum : Nat) (isClient : Bool) : World :=
-  let newLinks := w.hosts.map (fun h => ({ a := min h.ipnum ipnum, b := max h.ipnum ipnum, now := w.now } : Link Env))
+  let newLinks := w.hosts.map (fun h => ({ a := min h.ipnum ipnum, b := max h.ipnum ipnum, now := w.now, fixMatured := w.cfg.link.fixMatured } : Link Env))
   { w with hosts := w.hosts ++ [{ ipnum := ipnum, isClient := isClient, nextEph := w.cfg.ephLo, startOffset := w.elapsed }],
            links := w.links ++ newLinks }
 
